@@ -72,6 +72,30 @@ Universe make_layers() {
     return u;
 }
 
+// wide top layer: 40 next-layer links interleaved with 8-byte keys, so that the layer-0 borders holding the
+// links split / unlink (the link's rank changes) while the sub-layers' roots split and collapse
+Universe make_wide() {
+    Universe u;
+    u.storage = "scan-wide";
+    u.name = "trie-layers-wide-top";
+    for (unsigned g = 0; g < 40; ++g) {
+        char p[16];
+        snprintf(p, sizeof p, "W%07u", g * 10);
+        std::string prefix(p);
+        for (unsigned j = 0; j < 20; ++j) {
+            char b[8];
+            snprintf(b, sizeof b, "%02u", j);
+            u.keys.push_back(prefix + b);
+        }
+        for (unsigned t = 1; t <= 6; ++t) {
+            snprintf(p, sizeof p, "W%07u", g * 10 + t);
+            u.keys.emplace_back(p);
+        }
+    }
+    u.finish();
+    return u;
+}
+
 struct ScanRec {
     bool cursor;
     bool r2l;
@@ -104,6 +128,7 @@ int run_scan(const Args& a) {
     std::string only = a.str("scenario", "all");
     if (only == "all" || only == "flat") { us.push_back(make_flat()); }
     if (only == "all" || only == "layers") { us.push_back(make_layers()); }
+    if (only == "all" || only == "layers" || only == "wide") { us.push_back(make_wide()); }
     std::atomic<uint64_t> next_id{1};
     Session main_ses;
     main_ses.reenter();
@@ -136,6 +161,14 @@ int run_scan(const Args& a) {
         uint32_t span = static_cast<uint32_t>(r.range(30, 240));
         uint32_t rlo = static_cast<uint32_t>(r.below(n - std::min(span, n - 1)));
         uint32_t rhi = std::min(n - 1, rlo + span);
+        // every fourth round works at the right edge of the tree: right-to-left scans start there, and the writers
+        // empty / unlink / refill the rightmost border nodes under them
+        bool right_edge = rd % 4 == 3;
+        if (right_edge) {
+            span = static_cast<uint32_t>(r.range(12, 60));
+            rhi = n - 1;
+            rlo = n - 1 - std::min(span, n - 1);
+        }
         std::vector<std::vector<WOp>> hist(n);
         std::vector<std::vector<ScanRec>> srec(S);
         uint64_t round_seed = seed * 7368787 + rd;
@@ -267,7 +300,7 @@ int run_scan(const Args& a) {
                 };
                 if (!use_cursor) {
                     if (kindsel == 2) { rec.max_size = tr.range(1, 30); }
-                    if (kindsel == 3 && tr.chance(1, 2)) {
+                    if ((kindsel == 3 && tr.chance(1, 2)) || (right_edge && tr.chance(2, 3))) {
                         rec.r2l = true;
                         rec.max_size = 1;
                         re = scan_endpoint::INF;
@@ -364,7 +397,7 @@ int run_scan(const Args& a) {
             for (auto& rec : recs) {
                 rep.eval();
                 rep.count(rec.cursor ? (rec.r2l ? "cursors_backward" : "cursors_forward") : (rec.r2l ? "scans_right_to_left" : (rec.max_size != 0 ? "scans_limited" : "scans_unlimited")));
-                std::string kind_s = rec.cursor ? (u.name == "trie-layers" ? "iscan:trie-layers" : "iscan:single-layer") : "scan";
+                std::string kind_s = rec.cursor ? (u.name != "flat-multi-level" ? "iscan:trie-layers" : "iscan:single-layer") : "scan";
                 const char* kind = kind_s.c_str();
                 auto base = [&]() {
                     JObj d;
